@@ -497,6 +497,9 @@ impl Model {
 
     pub fn apply_connack(&mut self, props: &[Prop]) {
         self.r = 65535;
+        // the limits in force are those of the connection this CONNACK opens: no Maximum Packet Size
+        // announced means no limit, whatever an earlier connection of the same Context was told
+        self.m = None;
         for p in props {
             match (p.id, &p.val) {
                 (P_RECEIVE_MAXIMUM, PVal::U16(v)) => self.r = *v as u32,
